@@ -14,6 +14,10 @@ helper of contraction_util / state_state_contraction / state_operator_contractio
 run on nodes whose legs all have pairwise distinct prime dimensions and on tensors whose entries make
 the value sensitive to every binding; the result's shape must equal the predicted free legs mapped to
 dimensions and the value must equal an einsum over the predicted bound pairs.
+Kind "tree": the tree-level model (loop over linearise() + block dictionary + root step) returns the GLOBAL
+binding list of contract_two_ttns / expectation_value / as_matrix for a random tree with independent child
+orders; the library's scalar (matrix, node order) on networks whose edge and physical legs have distinct
+dimensions must equal the einsum over that binding list.
 """
 from __future__ import annotations
 
@@ -34,14 +38,14 @@ RULE = ("values: random trees 1..7 nodes (uniform/chain/star/spider/binaryish/ca
         ">= 2 neighbours and a bra/operator order different from the ket order")
 PARTIAL = [
     "value level: that the sum over the bound index pairs equals the dense inner product / <psi|O|psi> (finite-sum "
-    "algebra, NumPy tensordot semantics) is trusted and decided per input by the dense oracle, not proved in Lean",
-    "tree-level induction: that contract_two_ttns / expectation_value feed every per-node step with the blocks of its "
-    "children along linearise() is checked by the oracle; the theorems cover every per-node step (leaf, inner node, "
-    "root) for every neighbour order of ket, bra and operator",
+    "algebra, NumPy tensordot semantics) is trusted and decided per input by the dense oracle, not proved in Lean; "
+    "the Lean theorems (contract_two_ttns_graph, expectation_value_graph) prove that the contraction graph is the "
+    "closed specification graph for every tree and all independent child orders",
     "orthogonality-centre shortcuts (scalar_product, norm, single-site and one-site tensor product on the centre) are "
     "sound only for canonical states (isometry contract, C03): oracle only",
-    "TTNO.as_matrix (completely_contract_tree + transpose/reshape), apply_operator/absorb_into_open_legs, conjugate(): "
-    "oracle only",
+    "TTNO.as_matrix: as_matrix_graph_partial takes contract_nodes by its _data_contraction tensordot (= documented "
+    "leg order when the child has no children left); the lazily stored leg permutation (C02) is not modelled",
+    "apply_operator/absorb_into_open_legs, conjugate(), deepcopy in tensor_product_expectation_value: oracle only",
     "contract_all_neighbour_blocks_to_hamiltonian is modelled and compared through the driver but has no theorem",
 ]
 ASSUMPTIONS = ["NumPy tensordot/transpose/reshape/vdot semantics", "dense contraction by tensordot over labelled legs",
@@ -640,6 +644,146 @@ def _shift(nd, d):
     return (None if nd[0] is None else nd[0] + d, [x + d for x in nd[1]])
 
 
+# =========================================================================== tree-level graph cases
+
+def _build_tree_case(case):
+    """The real networks of a tree case and the labelled operands (global labels of the Lean model)."""
+    from pytreenet.ttns.ttns import TreeTensorNetworkState
+    from pytreenet.ttno.ttno_class import TreeTensorNetworkOperator
+    rng = random.Random(case["seed"])
+    nprng = np.random.default_rng(case["seed"])
+    par = case["par"]
+    n = len(par)
+    dims = _Dims(rng, case.get("distinct", True))
+    three = case["fn"] == "tree3"
+    phys = {i: [dims.get(("P", i))] for i in range(n)}
+    if case["fn"] == "asmat":
+        names = {i: gen.node_name(i) for i in range(n)}
+        inv = {v: k for k, v in names.items()}
+        bo = {(p, i): dims.get(("O", i)) for i, p in enumerate(par) if p >= 0}
+        ttno, _, _, _ = gen.build_network(TreeTensorNetworkOperator, par, bo, {i: phys[i] * 2 for i in range(n)},
+                                          rng, nprng)
+
+        def nbo(i):
+            nd = ttno.nodes[names[i]]
+            return ([] if nd.parent is None else [inv[nd.parent]]) + [inv[c] for c in nd.children]
+        operands = [(ttno.tensors[names[i]], [f"gO{i}_{x}" for x in nbo(i)] + [f"gOO{i}", f"gOI{i}"])
+                    for i in range(n)]
+        line = "C04 asmat 0 " + " ".join(
+            f"{i}:{','.join(str(inv[c]) for c in ttno.nodes[names[i]].children) or '-'};-" for i in range(n))
+        return ttno, ttno, operands, line, n >= 3
+    bk = {(p, i): dims.get(("K", i)) for i, p in enumerate(par) if p >= 0}
+    ket, _, _, names = gen.build_network(TreeTensorNetworkState, par, bk, phys, rng, nprng)
+    inv = {v: k for k, v in names.items()}
+
+    def nb(ttn, i):
+        nd = ttn.nodes[names[i]]
+        return ([] if nd.parent is None else [inv[nd.parent]]) + [inv[c] for c in nd.children]
+    operands = [(ket.tensors[names[i]], [f"gK{i}_{x}" for x in nb(ket, i)] + [f"gKP{i}"]) for i in range(n)]
+    if three:
+        bo = {(p, i): dims.get(("O", i)) for i, p in enumerate(par) if p >= 0}
+        other, _, _, _ = gen.build_network(TreeTensorNetworkOperator, par, bo, {i: phys[i] * 2 for i in range(n)},
+                                           rng, nprng)
+        operands += [(other.tensors[names[i]], [f"gO{i}_{x}" for x in nb(other, i)] + [f"gOO{i}", f"gOI{i}"])
+                     for i in range(n)]
+        operands += [(ket.tensors[names[i]].conj(), [f"gB{i}_{x}" for x in nb(ket, i)] + [f"gBP{i}"])
+                     for i in range(n)]
+    else:
+        bb = {(p, i): dims.get(("B", i)) for i, p in enumerate(par) if p >= 0}
+        other, _, _, _ = gen.build_network(TreeTensorNetworkState, par, bb, phys, rng, nprng)
+        operands += [(other.tensors[names[i]], [f"gB{i}_{x}" for x in nb(other, i)] + [f"gBP{i}"]) for i in range(n)]
+
+    def kids(ttn, i):
+        return ",".join(str(inv[c]) for c in ttn.nodes[names[i]].children) or "-"
+    line = f"C04 {case['fn']} 0 " + " ".join(f"{i}:{kids(ket, i)};{kids(other, i)}" for i in range(n))
+    differ = any(kids(ket, i) != kids(other, i) for i in range(n))
+    return ket, other, operands, line, differ
+
+
+def tree_line(case):
+    return _build_tree_case(case)[3]
+
+
+def _case_tree(ctx, case, model_out=None):
+    from pytreenet.contractions.state_state_contraction import contract_two_ttns
+    from pytreenet.contractions.state_operator_contraction import expectation_value
+    ket, other, operands, line, differ = _build_tree_case(case)
+    if model_out is None:
+        model_out = ctx.lean.batch([line])[0]
+    n = len(case["par"])
+    if case["fn"] == "asmat":
+        _case_asmat(ctx, case, ket, operands, line, model_out)
+        return
+    ctx.tally("tree_fn", case["fn"])
+    ctx.tally("tree_nodes", n)
+    ctx.tally("tree_child_orders_differ", differ)
+    ctx.count(("tree", line, case.get("distinct", True)), nontrivial=n >= 3 and differ, corr=True)
+    if not (model_out.startswith("legs |") or model_out == "legs | binds"):
+        ctx.corr_fail(case, f"{case['fn']}: the model leaves free legs / fails on a well-formed tree: [{model_out}]")
+        return
+    ref, prob = _einsum_from_model(model_out, operands)
+    if prob:
+        ctx.corr_fail(case, f"{case['fn']}: {prob}; model [{model_out[:300]}]")
+        return
+    try:
+        got = contract_two_ttns(ket, other) if case["fn"] == "tree2" else expectation_value(ket, other)
+    except Exception as e:      # noqa: BLE001
+        ctx.corr_fail(case, f"{case['fn']}: library raised {type(e).__name__}: {str(e)[:120]} on a well-formed pair "
+                            f"of networks; model [{model_out[:200]}]")
+        return
+    scale = 1.0
+    for arr, _ in operands:
+        scale *= max(float(np.linalg.norm(arr)), 1e-300)
+    if abs(complex(got) - complex(ref)) > 1e-9 * max(abs(complex(ref)), 1e-6 * scale):
+        ctx.corr_fail(case, f"{case['fn']}: library value {complex(got)!r} differs from the contraction over the "
+                            f"model's global binding list {complex(ref)!r}")
+
+
+def _case_asmat(ctx, case, ttno, operands, line, model_out):
+    n = len(case["par"])
+    ctx.tally("tree_fn", "asmat")
+    ctx.tally("tree_nodes", n)
+    ctx.count(("tree", line, case.get("distinct", True)), nontrivial=n >= 3, corr=True)
+    parts = model_out.split(" | ")
+    if len(parts) != 4 or not parts[0].startswith("order"):
+        ctx.corr_fail(case, f"asmat: model answers [{model_out[:200]}] on a well-formed TTNO")
+        return
+    m_order = [f"n{x}" for x in parts[0].split()[1].split(",")]
+    rows, cols = parts[1].split()[1:], parts[2].split()[1:]
+    ref, prob = _einsum_from_model("legs " + " ".join(rows + cols) + " | " + parts[3], operands)
+    if prob:
+        ctx.corr_fail(case, f"asmat: {prob}")
+        return
+    try:
+        mat, order = ttno.as_matrix()
+    except Exception as e:      # noqa: BLE001
+        ctx.corr_fail(case, f"asmat: library raised {type(e).__name__}: {str(e)[:120]}")
+        return
+    if list(order) != m_order:
+        ctx.corr_fail(case, f"asmat: returned node order {list(order)} != model {m_order}")
+        return
+    d = int(np.prod(ref.shape[:len(rows)])) if rows else 1
+    refm = ref.reshape(d, -1)
+    if mat.shape != refm.shape or np.linalg.norm(mat - refm) > 1e-9 * max(float(np.linalg.norm(refm)), 1e-300):
+        ctx.corr_fail(case, "asmat: matrix differs from rows = all output legs, columns = all input legs in the "
+                            "returned node order (contraction over the model's bindings)")
+
+
+def gen_tree_cases(ctx):
+    rng = ctx.subrng("tree")
+    cases = []
+    for _ in range(ctx.n(260, 3000)):
+        distinct = rng.random() < 0.5
+        kind = rng.choice([None, None, "spider", "chain", "star", "binaryish"])
+        n = rng.choice([1, 2, 3, 4, 5] if distinct else [1, 2, 3, 4, 5, 6, 7])
+        fn = rng.choice(["tree2", "tree3", "tree2", "tree3", "asmat"])
+        if fn == "tree3" and distinct:
+            n = min(n, 4)
+        cases.append({"kind": "tree", "fn": fn, "par": gen.random_parent_array(rng, n, kind),
+                      "seed": rng.randrange(10 ** 9), "distinct": distinct})
+    return cases
+
+
 # =========================================================================== cases
 
 def gen_cases(ctx):
@@ -672,6 +816,12 @@ def run(ctx):
         if ctx.time_left() < 0:
             break
         _case_legs(ctx, c, mo)
+    trees = gen_tree_cases(ctx)
+    outs = ctx.lean.batch([tree_line(c) for c in trees])
+    for c, mo in zip(trees, outs):
+        if ctx.time_left() < 0:
+            break
+        _case_tree(ctx, c, mo)
     for c in gen_cases(ctx):
         if ctx.time_left() < 0:
             break
@@ -681,6 +831,8 @@ def run(ctx):
 def run_case(ctx, case):
     if case.get("kind") == "values":
         _case_values(ctx, case)
+    elif case.get("kind") == "tree":
+        _case_tree(ctx, case)
     elif case.get("kind") == "legs":
         case = dict(case)
         for k in ("ket", "bra", "op"):      # JSON round trip turns the pairs into lists
@@ -711,6 +863,14 @@ def _shrink_legs(case):
 
 
 def shrink(case):
+    if case.get("kind") == "tree":
+        par = case["par"]
+        for leaf in range(len(par) - 1, 0, -1):
+            if leaf not in par:
+                yield dict(case, par=[p if p < leaf else p - 1 for i, p in enumerate(par) if i != leaf])
+        if case.get("distinct", True):
+            yield dict(case, distinct=False)
+        return
     if case.get("kind") == "legs":
         yield from _shrink_legs(case)
         return
